@@ -53,8 +53,13 @@ CLAIMED = {
         "sequence of ANY length is the documented denotation; flag evaluation writes no state; after visiting ANY tree the namespace "
         "stack is restored and the members of `namespace a.b {}` are visited under the enclosing path ++ [a;b]. Tie: K-front evaluates "
         "the model (vm_compute) on the real parse trees of generated programs under random layouts and compares the complete AST incl. "
-        "every position; all flag sequences of length <= 3 are enumerated; an independent oracle compares the AST with the abstract program.",
-   note="Trusted: Coq kernel+vm_compute; ANTLR lexer/parser (the model starts from the dumped parse tree); pydantic; the harness generators/mutators and the Python reference readings used as oracles.", technique="Coq proof over Gallina model of the visitor + vm_compute correspondence on real parse trees", design="7/C03"),
+        "every position; all flag sequences of length <= 3 are enumerated; an independent oracle compares the AST with the abstract program."
+        " From the text: the grammar Idl.g4 is translated on every run (Gen/Grammar.v) and interpreted by a generic lexer (longest match, first rule on ties, "
+        "non-greedy rules stop at the shortest match, skip rules) and a generic parser that builds ANTLR's parse tree; theorems for every grammar: the lexemes "
+        "partition the text, token line/column are the position reached by reading the text in front, the leaves of every parse tree are exactly the tokens in order. "
+        "K-parse compares the model's tree with the tree of the generated ANTLR parser on every text of the run. Documentation commands (@deprecated/@param in both "
+        "spellings): model Idl/CommentCmd.v with spelling-freedom and last-command-wins theorems, tied by K-commands on every commented node.",
+   note="Trusted: Coq kernel+vm_compute; the grammar translator; ANTLR's error recovery (texts with syntax errors are only compared for rejection); mistune for comments outside the plain class; pydantic; the harness generators/mutators and the Python reference readings used as oracles.", technique="Coq proof over Gallina models of lexer, parser (grammar translated from Idl.g4) and visitor + vm_compute correspondence with ANTLR's parse trees and the real AST", design="7/C03"),
  'C05': dict(
    text="Coq theorems: the post-resolution rule checks of Parser.parse (model Idl/Front.v) report EXACTLY the rule violations "
         "(sound and complete as an iff with a declarative violation relation) for declaration lists of any length, any member index, "
@@ -69,8 +74,10 @@ CLAIMED = {
         "skipped). The full no-crash statement is REFUTED with a witness tree (C06_no_crash_refuted): the visitor crashes on "
         "error-recovered trees - recorded finding C06-K1; the model reproduces these crashes exactly (Crash outcomes are compared). Tie: "
         "K-front on token/character mutations, deep nesting and unknown types in every position; oracle: only own diagnostics, each "
-        "inside its file.",
-   note="Trusted: Coq kernel+vm_compute; ANTLR lexer/parser (the model starts from the dumped parse tree); pydantic; the harness generators/mutators and the Python reference readings used as oracles. Known finding C06-K1 (visitor on recovered trees).", technique="Coq proof (totality of post-visit phases, refutation witness) + vm_compute correspondence on malformed inputs", design="7/C06"),
+        "inside its file. From the character sequence: for EVERY input the lexer model (grammar translated from Idl.g4 on each run) terminates within "
+        "|input| steps and its lexemes partition the input (theorems for every rule table); K-parse: the model accepts exactly the texts ANTLR accepts "
+        "and builds the same tree. Valid programs with documentation commands of every shape and import graphs with cycles / non-canonical spellings are part of the run.",
+   note="Trusted: Coq kernel+vm_compute; the grammar translator; ANTLR's error recovery (the visitor model runs on the dumped recovered tree); pydantic; the harness generators/mutators and the Python reference readings used as oracles. Known finding C06-K1 (visitor on recovered trees); one defect repaired (db1079a: '@param' without a name).", technique="Coq proof (totality of post-visit phases, refutation witness) + vm_compute correspondence on malformed inputs", design="7/C06"),
  'C16': dict(
    text="Coq theorems about the import model (Idl/Front.v) for every file system, importer and include-directory list: the file chosen "
         "is the first existing non-directory among [literal; importer dir; include dirs...]; NotFound iff none exists; self import "
@@ -85,7 +92,8 @@ CLAIMED = {
         "the declarations over imported/importing files gives the same diagnostics and registry. Equality of generated files is "
         "decided on the implementation by a metamorphic correspondence: base / re-layout / permutation (top level and inside "
         "namespaces) / split into one or two imported files, through parse and generation of all targets, comparing acceptance, "
-        "diagnostics modulo position and every generated file with the banner line removed.",
+        "diagnostics modulo position and every generated file with the banner line removed. Re-formatting: the parser model looks at token types only - "
+        "texts whose token streams agree on (type, text) get the same parse tree up to positions, for every grammar (C11_reformatting).",
    note="Trusted: Coq kernel; the real pipeline is the subject of the metamorphic runs (no model of the generators here). Known "
         "finding C11-K1 (order decides which of two colliding declarations survives; consequence of C15).",
    technique="Coq proof (permutation/split invariance of diagnostics and bindings) + metamorphic comparison of the implementation's outputs", design="7/C11"),
@@ -115,9 +123,12 @@ CLAIMED = {
         "the escaped @deprecated message is a well-formed C string-literal body (the three sequential replaces equal one per-character "
         "substitution). Tied to /repo by running the real comment filter of six generators and the real deprecated() helpers on "
         "adversarial strings (vm_compute comparison) and by a non-interference oracle on real generations: comments added/changed and "
-        "@deprecated messages changed on every commentable construct, code compared after removing comments and message literals.",
+        "@deprecated messages changed on every commentable construct, code compared after removing comments and message literals. Translation phases that run "
+        "before comments are recognised are modelled (Lang/Lexical.v): Java's unicode escapes (JLS 3.3 automaton) and C-family line splicing; theorems: the Javadoc "
+        "comment as written contains no backslash-u pair, javac reads exactly the written text and it closes once at its end; no physical line of a generated '//' "
+        "comment ends in a backslash; both statements are refuted (with witnesses) for the code before the repairs.",
    note="Trusted: Coq kernel+vm_compute; mistune and the Markdown renderers (arbitrary string in the theorems); the harness' lexical "
-        "stripper. Two defects repaired (c68de42 terminator, 02a4a46 backslash).",
+        "stripper. Four defects repaired (c68de42 terminator, 02a4a46 backslash, 1e35a17 Java unicode escapes, e1f57ae line splicing).",
    technique="Coq proof over all strings (comment filter, literal escaping) + vm_compute correspondence + metamorphic non-interference runs", design="7/C12"),
  'C18': dict(
    text="Coq refinement proof for a Gallina state-machine model of validate() and the request handlers: for EVERY event sequence "
@@ -139,7 +150,9 @@ CLAIMED = {
         "union, one enumerator per flag, enum ordinals, Java ordinal i = bit i (cross target); the all-before-ordinary case is REFUTED with "
         "a witness (finding C08-K1). A changed template changes the regenerated term and breaks the render lemma. Tie of the interpreter: "
         "K-jinja renders the sliced loops with Jinja itself on the real marshalling objects and compares with the TIR interpreter "
-        "(vm_compute) for all 8 enum/flags templates, exhaustively for all none/all patterns up to length 3 (5 in thorough).",
+        "(vm_compute) for all 8 enum/flags templates, exhaustively for all none/all patterns up to length 3 (5 in thorough). Render lemmas also for the Java, "
+        "Objective-C and C++/CLI enum item loops; a static theorem: each C-family flags template initialises its bit counter to 0 before the block and writes it "
+        "only inside the flags loop; the headers written by the real pipeline for programs with many flags types are read back (bits 0,1,2,... per type).",
    note="Trusted: Coq kernel+vm_compute; the template translator and jinja2's parser; Jinja runtime as reference for the interpreter; C's "
         "enumerator semantics as stated in Lang/EnumBody.v; JniFlags support code (read). Known finding C08-K1.",
    technique="Coq proof by induction over flag lists on the translated templates (deep embedding of Jinja) + vm_compute correspondence against Jinja itself", design="7/C08"),
@@ -193,9 +206,11 @@ CLAIMED = {
         "sampled maps, depth 2) and random programs; K-ident on generated identifiers x 6 styles x prefix; K-jinja on the member loops. "
         "Judges with an independent reference mapping: javac+javap (record fields in order + constructor, interface methods with "
         "descriptors and static, enum constants in order, error code classes and constructors) and g++ -fsyntax-only static_asserts "
-        "(decltype of every record member, is_constructible, member-function pointer types with const/noexcept, is_abstract, enumerators).",
-   note="Trusted: Coq kernel+vm_compute; javac/javap/g++ as judges; the reference mapping in props/c02.py; Jinja runtime. Objective-C and "
-        "C++/CLI declaration lists are covered through their type/name strings only (no compiler for them here). One defect repaired (f7bd709).",
+        "(decltype of every record member, is_constructible, member-function pointer types with const/noexcept, is_abstract, enumerators). Objective-C and C++/CLI "
+        "(no compiler here): render theorems for the record initialiser / @property loops, the C++/CLI constructor / property / backing-field loops, the protocol and "
+        "abstract-class method loops (nested parameter loops) and the enum item loops, for every member list; a text inventory reads the declarations back from the "
+        "generated .h / .hpp files and compares them in order with the marshalled names and type strings.",
+   note="Trusted: Coq kernel+vm_compute; javac/javap/g++ as judges; the reference mapping and the regular expressions of the text inventory in props/c02.py; Jinja runtime. One defect repaired (f7bd709).",
    technique="Coq proofs of compositionality/uniqueness by nested induction over type references + render lemmas + vm_compute correspondences + javap / static_assert judges", design="7/C02"),
  'C13': dict(
    text="Coq model of the YAML target's export and of @extern's import on the external-type tree (Marshal/Yaml.v). Theorems: import(export "
